@@ -260,6 +260,8 @@ def cmd_replay(args):
         plan = json.load(f)
     pid = plan['header']['property']
     mod = registry.load(pid)
+    if hasattr(mod, 'set_full_global'):
+        mod.set_full_global(True)
     if not mod.clean_start():
         print("HARNESS-ERROR: process-wide state dirty at start")
         return 2
